@@ -418,6 +418,75 @@ def run_C11(ctx):
     # outcome kinds (Ok iff the request fits), buffers and position after an error, remaining_blocks: absolute
     ctx.check_absolute(cases, res, sigfn=sig_C11, project=kinds_only)
     no_reuse(ctx, [c for c in cases if c.family == "stream"], res)
+    far_reuse(ctx)
+
+
+def far_reuse(ctx):
+    """no keystream block serves two positions — also not positions 2^32 or 2^64 blocks apart: a counter whose carry
+    between its 32- or 64-bit halves is lost repeats exactly there.  Keystream is generated around the block positions at
+    which the low 32 / 64 bits of the counter value roll over, and again one or more multiples of 2^32 / 2^64 away; all blocks
+    obtained at distinct positions must be pairwise distinct (the block cipher is a permutation)."""
+    rng = ctx.rng
+    cases = []
+    for mode in list(CTR_FLAVORS) + ["belt"]:
+        wb = counter_bits(mode)
+        hs = [h for h in (32, 64) if h < wb]
+        if not hs:
+            continue
+        for _ in range(ctx.n(12, 150)):
+            bs, w = pick_matrix(rng, mode, lambda x: x[0] >= 8)
+            if bs < 4:
+                continue
+            key = rb(rng, 16)
+            iv, cls = stream_iv(rng, mode, bs, key)
+            if mode == "belt":
+                first = int.from_bytes(toy_enc(key, iv), "little") + 1          # counter value of block position 0
+            else:
+                cs = wb // 8
+                first = int.from_bytes(iv[-cs:], "big") if CTR_FLAVORS[mode][1] else int.from_bytes(iv[:cs], "little")
+            h = rng.choice(hs)
+            k = rng.choice([w, w + 1, 2 * w, 2 * w + 1, 3])
+            limb = limit_blocks(mode)
+            # block position at which the low h bits of the counter value become 0, minus a few blocks
+            p0 = (-first) % (2 ** h)
+            ps = []
+            for m in sorted(set([0, 1, rng.randrange(0, 2 ** (wb - h))]))[:3]:
+                p = p0 + m * 2 ** h - rng.randrange(0, k + 1)
+                if 0 <= p and p + k < limb:
+                    ps.append(p)
+            if len(ps) < 2:
+                continue
+            c = Case("core", mode, bs, w, key, iv, cls_iv=cls, cls_far=f"h{h}", positions=ps, k=k)
+            for p in ps:
+                c.ops += [f"setpos {p}", ks_op(rng, k)]
+            cases.append(c)
+    if not cases:
+        return
+    res = ctx.run(cases, layers=())
+    ctx.no_panic(cases, res)
+    for c in cases:
+        hh = res["H"][c.cid]
+        if hh is None:
+            continue
+        seen = {}
+        bad = None
+        for idx, p in enumerate(c.meta["positions"]):
+            l = hh[2 * idx + 1] if 2 * idx + 1 < len(hh) else ""
+            if not l.startswith("out "):
+                continue
+            ks = payload(l)
+            for b in range(len(ks) // c.bs):
+                blk = ks[b * c.bs:(b + 1) * c.bs]
+                pos = p + b
+                for p2, k2 in seen.items():
+                    if p2 != pos and k2 == blk:
+                        bad = (p2, pos)
+                    if p2 == pos and k2 != blk:
+                        bad = (p2, pos)
+                seen[pos] = blk
+        if bad:
+            ctx.violation("predicate", f"{c.mode} bs={c.bs} w={c.w}: the keystream block of block position {bad[0]} is handed out again at block position {bad[1]}"
+                          if bad[0] != bad[1] else f"{c.mode} bs={c.bs} w={c.w}: block position {bad[0]} gives two different keystream blocks", [c], {"H": hh})
 
 
 def no_reuse(ctx, cases, res):
